@@ -68,6 +68,9 @@ func resolveOpts(opts []Option) options {
 // interface's getChunker method instead of explicit copying (see the
 // [Option] type documentation for rationale).
 func (o *options) fillFrom(d *Directory) {
+	d.lock.Lock()
+	defer d.lock.Unlock()
+
 	if o.cidBuilder == nil {
 		o.cidBuilder = d.unixfsDir.GetCidBuilder()
 	}
